@@ -114,15 +114,32 @@ uptr_DetectorGroup ext__make_unique__uptr_DetectorGroup(DetectorGroup dg) { g_dg
 uptr_DetectorGroup vec_uptr_DetectorGroup__elem(uint64_t vid, uint64_t i) { return (uptr_DetectorGroup)(300000 + i); }
 uptr_BasePlugin vec_uptr_BasePlugin__elem(uint64_t vid, uint64_t i) { return (uptr_BasePlugin)(100000 + i); }
 PluginRegistry getPluginRegistry(void) { return (PluginRegistry)1; }
-BasePlugin PluginRegistry__create(PluginRegistry r, str_t name) { return (BasePlugin)fresh_handle(); }
+/* a plugin type either declares a `cgroup` argument or it does not (systemd_restart does not): init() of a type that does not
+   REJECTS an argument map carrying one (PluginArgParser::parse: unknown argument) and leaves the object half initialised.
+   g_cur_plugin / g_cur_init_ok: the object most recently created and whether its last init() accepted. */
+BasePlugin g_cur_plugin; _Bool g_cur_takes_cgroup, g_cur_init_ok; umap_str_t_str_t g_injected_map; uint64_t g_placed, g_placed_ok;
+BasePlugin PluginRegistry__create(PluginRegistry r, str_t name) { g_cur_plugin = (BasePlugin)fresh_handle(); g_cur_takes_cgroup = nondet_bool(); g_cur_init_ok = 0; return g_cur_plugin; }
 str_t BasePlugin__getName(BasePlugin p) { return (str_t)p; }
 void BasePlugin__setName(BasePlugin p, str_t n) { }
 umap_str_t_str_t g_args_of; str_t g_emplaced_key, g_emplaced_val; _Bool g_emplace_only_if_absent; uint64_t g_try_emplaces, g_forced_sets;
-umap_str_t_str_t BasePlugin__getPluginArgs(BasePlugin p) { return (umap_str_t_str_t)fresh_handle(); }
-void umap_str_t_str_t__try_emplace(umap_str_t_str_t m, str_t k, str_t v) { g_try_emplaces = g_try_emplaces + 1; g_emplaced_key = k; g_emplaced_val = v; }
+umap_str_t_str_t BasePlugin__getPluginArgs(BasePlugin p) { umap_str_t_str_t m = (umap_str_t_str_t)fresh_handle(); __CPROVER_assume(m != g_injected_map); return m; }   /* returns a COPY of the template's arguments: a map of its own */
+void umap_str_t_str_t__try_emplace(umap_str_t_str_t m, str_t k, str_t v) { g_try_emplaces = g_try_emplaces + 1; g_emplaced_key = k; g_emplaced_val = v; g_injected_map = m; }
 str_t *umap_str_t_str_t__at_ref(umap_str_t_str_t m, str_t k) { static str_t slot; g_forced_sets = g_forced_sets + 1; return &slot; }   /* operator[]: overwrites */
 PluginConstructionContext PluginConstructionContext__from__str_t(str_t fs) { return (PluginConstructionContext)1; }
-int BasePlugin__init(BasePlugin p, umap_str_t_str_t args, PluginConstructionContext c) { g_act_copies = g_act_copies + 1; return 0; }
+int BasePlugin__init(BasePlugin p, umap_str_t_str_t args, PluginConstructionContext c)
+{
+  __CPROVER_assert(p == g_cur_plugin, "init() is called on the object just created for this instance");
+  /* the template's own arguments were accepted when the configuration was compiled; with the injected `cgroup` they are
+     accepted iff the plugin type declares that argument */
+  g_cur_init_ok = (args != g_injected_map) || g_cur_takes_cgroup;
+  return g_cur_init_ok ? 0 : 1;
+}
+void vec_uptr_BasePlugin__emplace_back(vec_uptr_BasePlugin *v, uptr_BasePlugin p)
+{
+  __CPROVER_assert((BasePlugin)p == g_cur_plugin && g_cur_init_ok, "every action put into a per-cgroup instance was initialised successfully (its init() result is honoured)"); /*@C11,C12,C04*/
+  g_act_copies = g_act_copies + 1;
+  __CPROVER_assume(v->n < VEC_MAX); v->n = v->n + 1;
+}
 uptr_CgroupPath ext__make_unique__uptr_CgroupPath(str_t fs, str_t rel) { return (uptr_CgroupPath)fresh_handle(); }
 str_t g_new_name; int g_new_delay, g_new_hook_timeout; uint32_t g_new_silence; _Bool g_new_dod, g_new_dgd, g_new_agd; uint64_t g_new_ndg, g_new_nact;
 uptr_Ruleset g_new_inst;
@@ -138,7 +155,7 @@ uptr_Ruleset ext__make_unique__uptr_Ruleset(str_t name, vec_uptr_DetectorGroup d
 void Ruleset__registerRunnableRulesetForCgroupPath(Ruleset *self, OomdContext context, CgroupPath cgroup)
   __CPROVER_requires(__CPROVER_is_fresh(self, sizeof(*self)) && self->detector_groups_.n <= VEC_MAX && self->action_group_.n <= VEC_MAX && ghost_exc == 0)
   __CPROVER_requires(g_map_n <= 2 * VEC_MAX && (!g_in_map || g_kpos < g_map_n))
-  __CPROVER_assigns(g_make_calls, g_dg_copies, g_act_copies, g_try_emplaces, g_forced_sets, g_emplaced_key, g_emplaced_val, g_new_name, g_new_delay,
+  __CPROVER_assigns(g_cur_plugin, g_cur_takes_cgroup, g_cur_init_ok, g_injected_map, g_make_calls, g_dg_copies, g_act_copies, g_try_emplaces, g_forced_sets, g_emplaced_key, g_emplaced_val, g_new_name, g_new_delay,
                     g_new_hook_timeout, g_new_silence, g_new_dod, g_new_dgd, g_new_agd, g_new_ndg, g_new_nact, g_new_inst, g_in_map, g_inst, g_kpos,
                     g_map_n, g_other, g_k_preruns, g_k_created, g_rel_of_cgroup)
   /* one new ruleset object, built from copies of every detector group and every action, with the template's settings */ /*@C11*/
@@ -163,7 +180,7 @@ void Ruleset__registerRunnableRulesetForCgroupPath(Ruleset *self, OomdContext co
   __CPROVER_loop_invariant(it.i <= it.n && it.n == self->detector_groups_.n && g_dg_copies == __CPROVER_loop_entry(g_dg_copies) + it.i && detector_groups.n == it.i) \
   __CPROVER_decreases(it.n - it.i)
 #define LOOPC_Ruleset__registerRunnableRulesetForCgroupPath_2 \
-  __CPROVER_assigns(it, action_group, g_act_copies, g_try_emplaces, g_emplaced_key, g_emplaced_val, g_forced_sets, g_rel_of_cgroup) \
+  __CPROVER_assigns(it, action_group, g_act_copies, g_try_emplaces, g_emplaced_key, g_emplaced_val, g_forced_sets, g_rel_of_cgroup, g_cur_plugin, g_cur_takes_cgroup, g_cur_init_ok, g_injected_map) \
   __CPROVER_loop_invariant(it.i <= it.n && it.n == self->action_group_.n && g_act_copies == __CPROVER_loop_entry(g_act_copies) + it.i && action_group.n == it.i && \
                            g_try_emplaces == __CPROVER_loop_entry(g_try_emplaces) + it.i && g_forced_sets == __CPROVER_loop_entry(g_forced_sets)) \
   __CPROVER_loop_invariant(it.i == 0 || (g_emplaced_key == STR_cgroup && g_emplaced_val == g_rel_expected)) \
@@ -201,7 +218,7 @@ uint32_t Ruleset__runOnce(Ruleset *self, OomdContext context)
   __CPROVER_requires(__CPROVER_is_fresh(self, sizeof(*self)) && ghost_exc == 0 && (!self->cgroup_.has || self->cgroup_.val != 0) &&
                      self->detector_groups_.n <= VEC_MAX && self->action_group_.n <= VEC_MAX)
   __CPROVER_requires(g_map_n <= VEC_MAX && (!g_in_map || (g_kpos < g_map_n && g_inst != 0)) && !g_k_visited && g_k_runs == 0 && !g_k_created && g_self_runs == 0)
-  __CPROVER_assigns(g_self_runs, g_in_map, g_inst, g_kpos, g_map_n, g_k_visited, g_k_runs, g_k_created, g_k_preruns, g_other, g_rscg, g_resolved_n, g_make_calls, g_dg_copies, g_act_copies, g_try_emplaces, g_forced_sets, g_emplaced_key, g_emplaced_val, g_new_name, g_new_delay, g_new_hook_timeout, g_new_silence, g_new_dod, g_new_dgd, g_new_agd, g_new_ndg, g_new_nact, g_new_inst, g_rel_of_cgroup)
+  __CPROVER_assigns(g_self_runs, g_in_map, g_inst, g_kpos, g_map_n, g_k_visited, g_k_runs, g_k_created, g_k_preruns, g_other, g_rscg, g_resolved_n, g_make_calls, g_dg_copies, g_act_copies, g_try_emplaces, g_forced_sets, g_emplaced_key, g_emplaced_val, g_new_name, g_new_delay, g_new_hook_timeout, g_new_silence, g_new_dod, g_new_dgd, g_new_agd, g_new_ndg, g_new_nact, g_new_inst, g_rel_of_cgroup, g_cur_plugin, g_cur_takes_cgroup, g_cur_init_ok, g_injected_map)
   /* a DISABLED ruleset (drop-in targeted with disable-on-drop-in) evaluates nothing: neither itself nor any per-cgroup
      instance, and keeps its instances; an enabled unscoped ruleset evaluates itself exactly once */ /*@C13,C11,C02*/
   __CPROVER_ensures(!self->enabled_ ? (g_self_runs == 0 && g_k_runs == 0 && __CPROVER_return_value == 0 &&
@@ -223,7 +240,7 @@ uint32_t Ruleset__runOnce(Ruleset *self, OomdContext context)
   __CPROVER_ensures(!g_in_map || (g_kpos < g_map_n))
   __CPROVER_ensures(ghost_exc == 0);
 #define LOOPC_Ruleset__runOnce_1 \
-  __CPROVER_assigns(__begin2, ret, g_in_map, g_inst, g_kpos, g_map_n, g_k_visited, g_k_runs, g_k_created, g_k_preruns, g_other, g_rscg, g_make_calls, g_dg_copies, g_act_copies, g_try_emplaces, g_forced_sets, g_emplaced_key, g_emplaced_val, g_new_name, g_new_delay, g_new_hook_timeout, g_new_silence, g_new_dod, g_new_dgd, g_new_agd, g_new_ndg, g_new_nact, g_new_inst, g_rel_of_cgroup) \
+  __CPROVER_assigns(__begin2, ret, g_in_map, g_inst, g_kpos, g_map_n, g_k_visited, g_k_runs, g_k_created, g_k_preruns, g_other, g_rscg, g_make_calls, g_dg_copies, g_act_copies, g_try_emplaces, g_forced_sets, g_emplaced_key, g_emplaced_val, g_new_name, g_new_delay, g_new_hook_timeout, g_new_silence, g_new_dod, g_new_dgd, g_new_agd, g_new_ndg, g_new_nact, g_new_inst, g_rel_of_cgroup, g_cur_plugin, g_cur_takes_cgroup, g_cur_init_ok, g_injected_map) \
   __CPROVER_loop_invariant(__begin2.i <= __begin2.n && __end2.i == __begin2.n && __begin2.n == g_resolved_n && g_map_n <= VEC_MAX + __begin2.i) \
   __CPROVER_loop_invariant(!g_in_map || (g_kpos < g_map_n && g_inst != 0)) \
   __CPROVER_loop_invariant((g_k_resolved && __begin2.i > g_k_index && g_k_open && (self->xattr_filter_ == STR_EMPTY || g_k_tagged)) \
